@@ -651,6 +651,8 @@ def borealis_program(case):
             ops.Sgate(p[0]) | q[n[0]]
         for i in range(3):
             ops.Rgate(p[2 * i + 1]) | q[n[i]]
+            if mut == "no-last-bs" and i == 2:
+                break
             if mut == "bs-modes" and i == 1:
                 ops.BSgate(p[2 * i + 2], PI / 2) | (q[n[i]], q[n[i + 1]])
             elif mut == "bs-phase" and i == 1:
@@ -661,7 +663,8 @@ def borealis_program(case):
                 ops.Rgate(case["offsets"][i]) | q[n[i]]
         if mut == "extra":
             ops.Rgate(0.1) | q[0]
-        ops.MeasureFock() | q[0]
+        if mut not in ("no-measure", "no-last-bs"):
+            ops.MeasureFock() | q[0]
     return prog
 
 
@@ -707,7 +710,7 @@ def gen_borealis_case(rng, T=None):
         for i in range(3):
             if rng.random() < 0.5:
                 offsets[i] = phases[i] if rng.random() < 0.8 else round(rng.uniform(-1, 1), 3)
-    mut = rng.choice(["first-op", "bs-modes", "bs-phase", "extra"]) if rng.random() < 0.12 else None
+    mut = rng.choice(["first-op", "bs-modes", "bs-phase", "extra", "no-measure", "no-last-bs"]) if rng.random() < 0.15 else None
     return {"args": args, "offsets": offsets, "loop_phases": phases, "mut": mut}
 
 
@@ -808,7 +811,11 @@ def check_borealis_case(ctx, case, K):
     if kind in ("CircuitError", "ValueError") or kind.startswith("build:"):
         return kind, False
     if kind.startswith("raise:"):
-        ctx.counterexample("borealis:compile:" + kind[6:], "borealis compilation raised %s" % res, data)
+        if kind == "raise:IndexError" and case.get("mut") in ("no-measure", "no-last-bs"):
+            ctx.counterexample("borealis:truncated-program:IndexError", "a borealis program that stops before the end of the layout (%s) is completed from the layout by "
+                               "Borealis.compile, but _user_offsets then has fewer entries than loops and update_params raises %s" % (case["mut"], res), data)
+        else:
+            ctx.counterexample("borealis:compile:" + kind[6:], "borealis compilation raised %s" % res, data)
         return kind, False
     prog, compiled, src_cmds, spec = res
     ccmds = tdm_cmds(compiled)
